@@ -1,4 +1,4 @@
-// crate: actix-http
+// (not registered, no hook in /repo) crate-was: actix-http
 // module: body::utils::verif_kani
 //
 // C12 O-1 — limited body collection (`to_bytes_limited`): generic over the body (static dispatch, no
